@@ -52,8 +52,15 @@ def queries(cs, cls):
         Q.append(("get:" + g, (lambda s, args, g=g: getattr(s, g)), lambda s: ()))
     if "is_inside" in methods:
         Q.append(("is_inside", lambda s, args: s.is_inside(args[0]), lambda s: (fpr.probe_points(s, 40),)))
+        # the same query with the argument in the other forms a caller may hold it in: a bare point, a one-row batch, a
+        # Fortran-ordered batch (what np.array([x, y, z]).T gives) - each must come back bit-for-bit as it went in
+        Q.append(("is_inside:(3,)", lambda s, args: s.is_inside(args[0]), lambda s: (np.array(fpr.probe_points(s, 40)[3], dtype=np.float64),)))
+        Q.append(("is_inside:(1,3)", lambda s, args: s.is_inside(args[0]), lambda s: (np.array(fpr.probe_points(s, 40)[5:6], dtype=np.float64),)))
+        Q.append(("is_inside:fortran", lambda s, args: s.is_inside(args[0]), lambda s: (np.asfortranarray(fpr.probe_points(s, 40)),)))
     if "compute_form_factor_amplitude" in methods:
         Q.append(("form_factor", lambda s, args: s.compute_form_factor_amplitude(args[0]), lambda s: (fpr.probe_q(s),)))
+        Q.append(("form_factor:(1,3)", lambda s, args: s.compute_form_factor_amplitude(args[0]), lambda s: (np.array(fpr.probe_q(s)[1:2], dtype=np.float64),)))
+        Q.append(("form_factor:fortran", lambda s, args: s.compute_form_factor_amplitude(args[0]), lambda s: (np.asfortranarray(fpr.probe_q(s)),)))
     if "distance_to_surface" in methods:
         Q.append(("distance_to_surface", lambda s, args: s.distance_to_surface(args[0]), lambda s: (fpr.ANGLES.copy(),)))
     if "get_face_area" in methods:
